@@ -79,7 +79,8 @@ def outOps (s : Scn) : List Op :=
   else
     (if s.dbgXml then [Op.writeDebugXml] else []) ++
     (if !s.fsmOk then []      -- the debug files are written, the destination is not touched at all
-     else if s.outOpens then [Op.truncOut] ++ (if s.outWrites then [Op.writeOut] else [Op.removeOut]) else [Op.removeOut])
+     -- (a destination that cannot be created is left alone: what is at that path - a directory, say - is not the run's)
+     else if s.outOpens then [Op.truncOut] ++ (if s.outWrites then [Op.writeOut] else [Op.removeOut]) else [])
 
 def Scn.outFail (s : Scn) : Bool := !s.preFail && !(s.fsmOk && s.outOpens && s.outWrites)
 
@@ -180,10 +181,25 @@ theorem failure_leaves_no_font (s : Scn) (h : (run s).exit ≠ 0) (he : s.errFil
       simp only [Scn.preFail, Bool.or_eq_false_iff] at hp'
       obtain ⟨⟨⟨⟨⟨⟨⟨h1, h2⟩, h3⟩, h4⟩, h5⟩, h6⟩, h7⟩, h8⟩ := hp'
       simp [h1, h2, h3, h4, h5, h6, h7, h8, this, he]
-    · right
-      rw [mem_ops]; right; right; right; left
-      simp only [outOps, hp', Bool.false_eq_true, if_false, hf]
-      cases ho : s.outOpens <;> cases hw : s.outWrites <;> cases hx : s.dbgXml <;> simp_all
+    · cases ho : s.outOpens with
+      | false =>
+        -- the destination could not be created: it is not touched at all
+        left
+        rw [mem_ops]
+        have hnp := out_not_in_parse s
+        intro hc
+        rcases hc with hc | hc | hc | hc | hc
+        · cases hc
+        · cases hc
+        · exact hnp.1 hc
+        · simp only [outOps, hp', Bool.false_eq_true, if_false, hf, ho] at hc
+          cases hx : s.dbgXml <;> simp_all
+        · exact absurd hc.2 (by decide)
+      | true =>
+        right
+        rw [mem_ops]; right; right; right; left
+        simp only [outOps, hp', Bool.false_eq_true, if_false, hf]
+        cases hw : s.outWrites <;> cases hx : s.dbgXml <;> simp_all
 
 /-- State machines that do not fit the font tables (found after they are generated): exit status 1 and the destination
     is neither opened nor removed. -/
